@@ -144,6 +144,10 @@ pub fn run(pr: &mut PropRun, t: &Tier) {
         }
     }
     for kind in Kind::ADAPTIVE {
+        // (the fourth- and sixth-order estimates are degree >= 5 polynomials in (lambda, h, y): minutes for nlsat)
+        if !t.thorough && kind != Kind::RK23 {
+            continue;
+        }
         let mut cfg = t.cfg(&format!("C05:estimator-order({})", kind.name()));
         cfg.max_decisions = 300;
         cfg.query_timeout_s = if t.thorough { 120.0 } else { 30.0 };
